@@ -3,9 +3,8 @@ CONSTANTS
   Deviation = "none"
   Kinds = {"async", "mq", "syncq"}
   Caps = {0, 1}
-  MaxItems = 3
+  MaxItems = 2
   Cons = {1, 2, 3}
 INVARIANTS TypeOK WTypeOK Conservation LanesSorted ClearedIsFinal NoStranded NothingLeftBeside
-PROPERTIES Order Capacity CloseSem
 VIEW WView
 CHECK_DEADLOCK FALSE
